@@ -16,16 +16,19 @@ from fractions import Fraction
 import numpy as np
 
 from core.ctx import VERIF
+from translators import t_gridweights
 
 ID = "C31"
 LEAN_MODULES = ["NiftyVerif.Core.Proto", "NiftyVerif.Props.C31"]
 DRIVER = "Driver/C31.lean"
+TRANSLATORS = [t_gridweights.translate]
 OBLIGATIONS = ["NiftyVerif.C31." + t for t in (
     "parent_child", "parent_child_open", "children_partition", "children_partition_open", "healpix_parent_child",
     "parent_child_vec", "children_cover_vec", "mgrid_componentwise", "open_shape_shift_step",
     "ravelSerial_lt", "flat_roundtrip_serial", "flat_roundtrip_serial_inv",
     "flat_parent_commutes", "flat_children_commute", "flat_parent_commutes_serial",
-    "flat_roundtrip_nest", "nest_bound_is_shape", "flat_parent_commutes_nest",
+    "flat_roundtrip_nest", "flat_roundtrip_nest_inv", "nest_children_contiguous", "nest_bound_is_shape",
+    "flat_parent_commutes_nest", "weights_serial_translated",
     "coord_roundtrip", "coord_roundtrip_rint", "volume_conserved_axis", "volume_conserved", "edges_refine",
     "simple_coord_roundtrip",
     "neighbourhood_in_range", "neighbourhood_centre", "neighbourhood_wraps", "open_neighbourhood_eq")]
@@ -577,18 +580,30 @@ def _corpus():
     return out
 
 
-FIXED = [
-    dict(kind="regular", shape0=[3, 2], splits=[[2, 3], [2, 2]]),
-    dict(kind="open", shape0=[5, 7], splits=[[2, 3], [2, 2]], padding=[[1, 2], [1, 1]]),
-    dict(kind="open", shape0=[4, 9], splits=[[1, 2], [1, 2]], padding=[[0, 2], [0, 2]]),
+# systematic small families: 1-, 2-, 3- and 4-axis grids with pairwise different axis lengths and different splits per axis,
+# for every grid kind and both flat orderings (all indices of all levels are evaluated)
+_REG = {
+    1: dict(kind="regular", shape0=[3], splits=[[2], [3]]),
+    2: dict(kind="regular", shape0=[3, 2], splits=[[2, 3], [1, 2]]),
+    3: dict(kind="regular", shape0=[2, 1, 3], splits=[[1, 3, 2], [2, 1, 1]]),
+    4: dict(kind="regular", shape0=[1, 2, 3, 2], splits=[[2, 1, 1, 3]]),
+}
+_OPEN = {
+    1: dict(kind="open", shape0=[5], splits=[[2], [3]], padding=[[1], [1]]),
+    2: dict(kind="open", shape0=[5, 7], splits=[[2, 3], [2, 1]], padding=[[1, 2], [1, 0]]),
+    3: dict(kind="open", shape0=[4, 3, 5], splits=[[1, 2, 3]], padding=[[1, 0, 2]]),
+    4: dict(kind="open", shape0=[3, 2, 4, 3], splits=[[2, 1, 1, 2]], padding=[[1, 0, 1, 0]]),
+}
+FIXED = [_REG[n] for n in (2, 3, 4)] + [_OPEN[n] for n in (2, 3, 4)] + [
     dict(kind="hp", nside0=1, depth=2),
-    dict(kind="mgrid", grids=[dict(kind="regular", shape0=[3], splits=[[2], [2]]),
-                              dict(kind="open", shape0=[5], splits=[[2], [3]], padding=[[1], [1]])]),
-    dict(kind="mgrid", grids=[dict(kind="regular", shape0=[2], splits=[[2]]), dict(kind="hp", nside0=1, depth=1)]),
-    dict(kind="flat", ordering="serial", grid=dict(kind="regular", shape0=[3, 2], splits=[[2, 3], [2, 2]])),
-    dict(kind="flat", ordering="nest", grid=dict(kind="regular", shape0=[3, 2], splits=[[2, 3], [2, 2], [1, 2]])),
-    dict(kind="flat", ordering="serial", grid=dict(kind="open", shape0=[5, 7], splits=[[2, 3], [2, 2]], padding=[[1, 2], [1, 1]])),
-    dict(kind="flat", ordering="nest", grid=dict(kind="hp", nside0=1, depth=2)),
+    dict(kind="mgrid", grids=[_REG[1], _OPEN[1]]),
+    dict(kind="mgrid", grids=[dict(kind="regular", shape0=[2], splits=[[2]]), dict(kind="hp", nside0=1, depth=1),
+                              dict(kind="regular", shape0=[1, 3], splits=[[3, 1]])]),
+] + [dict(kind="flat", ordering=o, grid=_REG[n]) for o in ("serial", "nest") for n in (1, 2, 3, 4)] + [
+    dict(kind="flat", ordering="serial", grid=_OPEN[n]) for n in (2, 3, 4)] + [
+    dict(kind="flat", ordering="nest", grid=dict(kind="hp", nside0=1, depth=1)),
+    dict(kind="flat", ordering="serial", grid=dict(kind="mgrid", grids=[_REG[2], dict(kind="regular", shape0=[2], splits=[[3], [1]])])),
+    dict(kind="flat", ordering="nest", grid=dict(kind="mgrid", grids=[_REG[2], dict(kind="regular", shape0=[2], splits=[[3], [1]])])),
     dict(kind="simpleopen", min_shape=[5, 4], depth=2, window=3, splits=2, distances=None),
     dict(kind="log", min_shape=[6], depth=2, window=3, splits=2, r_min=0.5, r_max=20.0),
     dict(kind="brokenlog", min_shape=[6], depth=1, window=3, splits=2, r_min=0.5, r_linthresh=2.0, r_max=20.0),
@@ -711,12 +726,28 @@ def check_specs(ctx, specs):
         slices.append((len(reqs), len(reqs) + len(rq)))
         reqs += rq
     mreqs, mreals = misc_requests(ctx)
+    treqs, treals = translator_requests()
+    mreqs, mreals = mreqs + treqs, mreals + treals
     outs = ctx.model(DRIVER, reqs + mreqs)
     for j, (a, b) in zip(jobs, slices):
         check_levels(ctx, j, outs[a:b])
     for rq, re_, mo in zip(mreqs, mreals, outs[len(reqs):]):
         ctx.compare(rq, re_, mo, note="C31 " + rq["op"], nontrivial=True)
         ctx.stat("misc:" + rq["op"])
+
+
+def translator_requests():
+    """validate translators/t_gridweights.py: generated Lean definition vs the Python original on a grid of shapes"""
+    _jax()
+    from nifty.re.multi_grid.grid import FlatGrid, Grid
+    import itertools
+    reqs, reals = [], []
+    for nd in (1, 2, 3, 4):
+        for shape in itertools.product((1, 2, 3), repeat=nd):
+            fa = FlatGrid(Grid(shape0=shape, splits=()), ordering="serial").at(0)
+            reals.append([int(x) for x in fa._weights_serial(0)])
+            reqs.append(dict(op="weightsSerialGen", shape=list(shape)))
+    return reqs, reals
 
 
 def misc_requests(ctx):
@@ -752,7 +783,7 @@ def misc_requests(ctx):
 def run(ctx):
     _jax()
     specs = [c["spec"] for c in _corpus()] + FIXED
-    for _ in range(ctx.n(8, 60)):
+    for _ in range(ctx.n(2, 50)):
         specs.append(gen_spec(ctx.rng, ctx.quick))
     check_specs(ctx, specs)
     ctx.extra["exhaustive_per_grid"] = "every index of every level of every generated grid"
